@@ -217,6 +217,7 @@ def _cl(case):
 
 
 BASES = ["http://example.com/Art/Page?b=2&a=1", "https://lemonde.co.uk/a", "http://blog.example.org:8080/x/?q=A%20b#/Route", "http://é.example.fr/É"]
+IP_BASES = ["http://[2001:db8::1]/a?x=1", "http://[::1]/", "http://127.0.0.1/A/b", "http://[::ffff:10.0.0.1]/p#/r"]
 OPTSETS = [{"strip_suffix": a, "platform_aware": b} for a in (False, True) for b in (False, True)]
 
 
@@ -264,6 +265,15 @@ def _sweep(acc, shard, nshards, seed, tier):
                 emit(b, "%s://%s.%s" % (scheme, bad.lower(), rest), "non-iso-label", o, "differ")
             for it in ["glx=1", "hl2=fr", "ghl=1", "lang=fr"]:
                 emit(b, head + "?" + "&".join(items + [it]) + h + frag, "gl-hl-lookalike", o, "differ")
+    # IP-literal hosts: port and case (a language label or a suffix has no meaning there)
+    for b in IP_BASES:
+        scheme, rest = b.split("://", 1)
+        host, _, tail = rest.partition("/")
+        for o in OPTSETS:
+            for p in ["1", "80", "443", "8080", "65535"]:
+                emit(b, "%s://%s:%s/%s" % (scheme, host, p, tail), "port", o)
+            emit(b, b.upper(), "case-flip", o)
+            emit(b, "https://%s/%s" % (host, tail), "scheme", o)
     # hosts that would keep < 2 labels: the label must stay
     for o in OPTSETS:
         for h in ["fr.com", "de.org", "pt-br.io"]:
